@@ -70,3 +70,12 @@ Theorem C09_success_means_persisted : forall c fid start seed s s',
             lookup_run (o_w s') (r_run r) = Some r /\ last (w_hist (o_w s')) r = r /\ w_hist (o_w s') <> [].
 Proof. exact trigger_success_persisted. Qed.
 Print Assumptions C09_success_means_persisted.
+
+(* "... with a fresh run ID": in every history the runs that exist have pairwise distinct run IDs, all below the store's next run
+   number (the model's stand-in for UUIDs) — a Trigger never re-uses the ID of a run that exists *)
+From WF Require Import proofs.EngineInv.
+Theorem C09_run_ids_distinct : forall c ops, hist_ok ops ->
+  NoDup (map r_run (w_recs (fst (run_ops c ops)))) /\
+  forall r, In r (w_recs (fst (run_ops c ops))) -> (r_run r < w_nrun (fst (run_ops c ops)))%N.
+Proof. intros c ops H. split; [apply (wi_nodup c _ (final_WI c ops H))|apply (wi_lt c _ (final_WI c ops H))]. Qed.
+Print Assumptions C09_run_ids_distinct.
